@@ -3,14 +3,19 @@ from props import prop
 prop("C16", "exploration",
      "rapid draws concurrent programs: 1-3 established tubes (reliable/unreliable, opened from either side), 2-6 goroutines of "
      "1-5 operations over both ends (Write, Read, Close, WaitForClose, SetDeadline, Muxer.Stop, Close+WaitForClose) with "
-     "inter-operation delays; a loss pattern (0/10/50/100 %, healing at a drawn time, or a network that goes dead for good at a "
+     "inter-operation delays; a preload (per tube end 0-20 writes of 1 B - 32 KiB made before the program starts and left unread by the "
+     "peer, so that Close/Stop meet tubes with buffered, not yet read data); a loss pattern (0/10/50/100 %, healing at a drawn time, or a network that goes dead for good at a "
      "drawn moment), optionally the underlying connection failing (write errors or closed underneath) at a drawn moment, a muxer "
      "data timeout in {0, 2 s, 30 s}, and a yield schedule (virtual delays at the verif-tagged yield points in Muxer.Stop / "
      "receiver / reaper, Reliable.Close / enterClosedState / receive / send loop, Unreliable.Close / receive / sender). Runs "
      "inside a synctest bubble. Oracle: when both ends have closed and the network delivers, WaitForClose returns within 30 "
      "virtual s without any Stop; three concurrent Stop calls per muxer return within 20 virtual s with equal results; 30 s "
      "after both muxers stopped no call is still blocked; Write fails and Read reaches end-of-stream afterwards; reads return only "
-     "what the peer wrote; no panic; no goroutine left (bubble exit). Non-trivial = lifecycle operations (Close/Stop) in >=2 "
+     "what the peer wrote; after shutdown each end must return exactly what sits unread in its buffer (white box: buffered bytes of a "
+     "reliable tube, the receive queue of an unreliable tube copied out and put back: exactly those messages, in that order), then "
+     "end-of-stream, and nothing after end-of-stream; inside a program, a Read on an unreliable end whose local Close/Stop has "
+     "returned must not report end-of-stream while its receive queue is non-empty and must not return a message after an earlier "
+     "such Read reported end-of-stream; no panic; no goroutine left (bubble exit). Non-trivial = lifecycle operations (Close/Stop) in >=2 "
      "goroutines, or lifecycle under loss>=50 % / dead network; distinct by case hash.",
      ["between two instrumented points the Go scheduler decides the interleaving", "a one-sided close on a dead network without data timeout and without Stop is not required to finish; every program ends with Stop on both muxers",
       "bounds are virtual (synctest): 30 s / 10 s are far above the documented timers (muxerTimeout 1 s, drain 1 s, last-ack 4*RTT)"],
